@@ -287,7 +287,11 @@ fn render_fn(ctx: &mut Ctx, unit: &Unit, fs: &FnSpec, found: &FoundFn, in_trait_
                     }
                     name = pi.ident.to_string();
                 }
-                let ty: String = if let Some(t) = fs.argtype.get(&name) { n.bump("R-ARGTYPE"); t.clone() } else {
+                {
+                    // R-STRSLICE: remember `&str` / `&'a str` parameters
+                    if let Type::Reference(r) = &*pt.ty { if r.mutability.is_none() { if let Type::Path(tp) = &*r.elem { if tp.path.is_ident("str") { n.str_idents.insert(name.clone()); } } } }
+                }
+                let ty: String = if let Some(t) = fs.argtype.get(&name) { n.bump("R-ARGTYPE"); if squash(t).starts_with("VxIter<") { n.iter_idents.insert(name.clone()); } t.clone() } else {
                     // R-IMPLTRAIT
                     fn repl(t: &mut Type, impl_no: &mut usize, extra: &mut Vec<String>) -> bool {
                         match t {
